@@ -10,6 +10,7 @@ pub fn run(driver: &str, kv: &HashMap<String, String>) -> i32 {
         "filtersync" => filtersync::run(kv),
         "sampling" => sampling::run(kv),
         "mine-genesis" => mine_genesis(),
+        "selftest-forged" => selftest_forged(),
         _ => {
             eprintln!("unknown driver {}", driver);
             2
@@ -32,4 +33,18 @@ fn mine_genesis() -> i32 {
         }
         n += 1;
     }
+}
+
+fn selftest_forged() -> i32 {
+    use ckb_types::prelude::*;
+    use rand::SeedableRng;
+    let mut rng = rand::rngs::StdRng::seed_from_u64(1);
+    let built = filtersync::build_tx_world(&mut rng, "dummy", 8, 0, 1, 3);
+    for v in 0..3 {
+        let f = crate::verif::mutate::forged_body(&built.chain, 5, v);
+        println!("packed txs {} orig {}", f.transactions().len(), built.chain.blocks[5].block.transactions().len());
+        let view = f.clone().into_view_without_reset_header();
+        println!("variant {} txs {} root {:#x} calc {:#x} equal {}", v, view.transactions().len(), view.transactions_root(), view.calc_transactions_root(), view.transactions_root() == view.calc_transactions_root());
+    }
+    0
 }
